@@ -88,7 +88,8 @@ def literal(value, t):
 
 class Options:
     def __init__(self, floats=True, structs=True, pointers=True, switch=True, calls=True, tail_padding=False, sizeof_struct=False,
-                 max_funcs=4, max_stmts=8, max_depth=3, goto=False, compound=True, narrow_unary=True, excluded=None):
+                 max_funcs=4, max_stmts=8, max_depth=3, goto=False, compound=True, narrow_unary=True, excluded=None,
+                 effects=0, many_params=0):
         self.__dict__.update(locals())
         del self.__dict__["self"]
         self.excluded = excluded or {}
@@ -351,6 +352,86 @@ class _Gen:
             self.features.add("incdec")
             out.append("%s%s%s;" % (ind, l, self.pick(["++", "--"])) if self.chance(50) else "%s%s%s;" % (ind, self.pick(["++", "--"]), l))
 
+    def stmt_effect(self, scope, ind, out):
+        """Statements whose expressions HAVE side effects, each defined by a sequence point or by touching distinct objects:
+        a compound assignment / ++ whose lvalue designator increments a counter or calls ext() (the designator must be
+        evaluated exactly once), short-circuit and conditional operators guarding ext() calls, the comma operator, assignment
+        and ++/-- used as values.  The counter is folded into an lvalue afterwards so that a second evaluation shows."""
+        lvs = [(l, t) for l, t in self.lvalues(scope) if not is_float(t)]
+        if not lvs:
+            return
+        sink, sinkt = self.pick(lvs)
+        k = self.fresh("k")
+        e, te = self.expr(scope, 2)
+        if is_float(te):
+            e, te = self.lit("int")
+        c, tc = self.expr(scope, 2)
+        tag = self.draw(st.integers(10, 19))
+        r = self.draw(st.integers(0, 11))
+        self.features.add("side_effect_expr")
+        cop = self.pick(["+=", "-=", "*=", "&=", "|=", "^=", "+=", "-="])
+        ii = ind + "  "
+        body = []
+        if r <= 3 and self.arrays:
+            n, et, cnt = self.pick(self.arrays)
+            start = self.draw(st.integers(0, max(cnt - 2, 0)))
+            body.append("int %s = %d;" % (k, start))
+            if r == 0:
+                body.append("%s[(unsigned)(%s++) %% %du] %s %s;" % (n, k, cnt, cop, e))
+                self.features.add("effect_in_compound_lvalue")
+            elif r == 1:
+                body.append("%s[(unsigned)ext(%d, %s) %% %du] %s %s;" % (n, tag, k, cnt, cop, e))
+                self.features.add("effect_in_compound_lvalue")
+            elif r == 2:
+                q = self.fresh("q")
+                body.append("%s *%s = &%s[%s];" % (et, q, n, k))
+                body.append("*%s++ %s %s;" % (q, cop, e))
+                body.append("%s = (int)(%s - %s);" % (k, q, n))
+                self.features.add("effect_in_compound_lvalue")
+            else:
+                body.append("%s[(unsigned)(%s%s) %% %du]%s;" % (n, self.pick(["++", "--"]), k, cnt, self.pick(["++", "--"])))
+                self.features.add("effect_in_incdec_lvalue")
+            body.append("%s = %s;" % (sink, k))
+        elif r <= 5:
+            body.append("int %s = %s;" % (k, self.lit("int")[0] if self.chance(50) else "1"))
+            op = self.pick(["&&", "||"])
+            if r == 4:
+                body.append("%s = (%s %s ext(%d, %s));" % (sink, c, op, tag, k))
+            else:
+                body.append("if (%s %s (%s = (int)ext(%d, %s)) > 0) { %s = %s; }" % (c, op, k, tag, k, sink, self.conv(e, te, sinkt)))
+                body.append("%s = %s;" % (sink, k) if self.chance(50) else "ext(%d, %s);" % (tag + 1, k))
+            self.features.add("short_circuit_effect")
+        elif r == 6:
+            body.append("int %s = 2;" % k)
+            body.append("%s = (%s ? ext(%d, %s) : ext(%d, %s++));" % (sink, c, tag, e if not is_float(te) else "1", tag + 1, k))
+            body.append("ext(%d, %s);" % (tag + 2, k))
+            self.features.add("conditional_effect")
+        elif r == 7:
+            body.append("int %s = %s;" % (k, self.lit("int")[0]))
+            body.append("%s = (%s++, ext(%d, %s), %s);" % (sink, k, tag, k, self.conv(e, te, sinkt)))
+            self.features.add("comma")
+        elif r <= 9:
+            # both designators without indirection: different text then means different objects
+            plain = [(l, t) for l, t in lvs if "*" not in l and "->" not in l]
+            if "*" in sink or "->" in sink or not plain:
+                return
+            lv2, t2 = self.pick(plain)
+            if lv2 == sink:
+                body.append("int %s = 0;" % k)
+                body.append("%s = (%s = %s) + 1;" % (sink, k, e))
+            else:
+                body.append("%s = (%s %s %s) + 1;" % (sink, lv2, self.pick(["=", "+=", "-=", "^="]), e))
+            self.features.add("assignment_value")
+        else:
+            body.append("int %s = %s;" % (k, self.lit("int")[0] if self.chance(50) else "3"))
+            body.append("%s = (%s%s) %s %s;" % (sink, k, self.pick(["++", "--"]), self.pick(["^", "&", "|"]), e) if self.chance(50)
+                        else "%s = (%s%s) %s %s;" % (sink, self.pick(["++", "--"]), k, self.pick(["^", "&", "|"]), e))
+            body.append("ext(%d, %s);" % (tag, k))
+            self.features.add("incdec_value")
+        out.append("%s{" % ind)
+        out.extend(ii + b for b in body)
+        out.append("%s}" % ind)
+
     def stmt_decl(self, scope, ind, out):
         t = self.some_type()
         n = self.fresh("v")
@@ -370,6 +451,8 @@ class _Gen:
         deep = scope["depth"] >= 3
         if r >= 100:
             return self.stmt_loop_carry(scope, ind, out)
+        if self.opt.effects and not deep and self.chance(self.opt.effects):
+            return self.stmt_effect(scope, ind, out)
         if r < 18:
             return self.stmt_decl(scope, ind, out)
         if r < 52 or deep:
@@ -612,6 +695,9 @@ class _Gen:
         L = self.lines
         name = "f%d" % i
         nparams = self.draw(st.integers(0, 4))
+        if self.opt.many_params and self.chance(self.opt.many_params):
+            nparams = self.draw(st.integers(7, 11))  # beyond the six integer argument registers of the System V ABI
+            self.features.add("stack_params")
         ptypes = []
         params = []
         for k in range(nparams):
